@@ -9,6 +9,13 @@ import PaletteModel.RouteDriver
 import PaletteModel.AdaptDriver
 import PaletteModel.SerdeDriver
 import PaletteModel.CastDriver
+import PaletteModel.InPlaceDriver
+import PaletteModel.DiffDriver
+import PaletteModel.BlendDriver
+import PaletteModel.OpsDriver
+import PaletteModel.SamplingDriver
+import PaletteModel.HueDriver
+import PaletteModel.Cam16Driver
 
 open Proto
 
@@ -25,7 +32,14 @@ def dispatch (op : String) (cfg inp outp : List String) : Verdict :=
   | "lutenc" | "lutdec" | "lutenc16" | "lutdec16" => Lut.handle op cfg inp outp
   | "ser" | "shape" | "de" | "arr" | "arrde" | "uint" | "uintde" | "maxint" | "desc" | "ntypes" => Serde.handle op cfg inp outp
   | "cast" | "c04fields" | "c04layout" => Cast.handle op cfg inp outp
-  | _ => .bad s!"unknown op {op}"
+  | "hist" => InPlace.handle cfg inp outp
+  | "gapi" => InPlace.handleApi cfg inp outp
+  | "de00" | "dist" | "dist1" | "hyab" | "deltae" | "polar2rect" | "wcag" => Diff.handle op cfg inp outp
+  | "blend" | "compose" | "blendwith" | "premul" | "unpremul" => Blend.handle op cfg inp outp
+  | "smpstd" | "smpuni" | "smpmeta" => Sampling.handle op cfg inp outp
+  | "hnorm" | "heq" | "hops" | "hrad" | "hcart" | "hcart2" | "hu8" | "hfu8" | "hfmt" | "hconst" => Hue.handle op cfg inp outp
+  | "cam16fwd" | "cam16pfx" | "cam16inv" | "cam16ful" | "cam16fxz" | "ucs" => Cam16.handle op cfg inp outp
+  | _ => if op.startsWith "c10." then OpsDrv.handle (String.ofList (op.toList.drop 4)) cfg inp outp else .bad s!"unknown op {op}"
 
 structure DrvAcc where
   lines : Nat := 0
